@@ -2,6 +2,7 @@
    Index-level statements (any number of dimensions, any sizes, any dimension order). *)
 From Coq Require Import ZArith List Bool Permutation.
 From XV Require Import Base.Scalar Base.Mat Model.NdArr Proofs.C02_proofs.
+From XV Require Model.Pipe Gen.T7pipe Proofs.Pipe_proofs Proofs.Pipe_tie.
 Import ListNotations.
 
 Theorem C02_unflatten_flatten : forall (sh : shape) (idx : list nat), inb sh idx -> unflatten sh (flatten sh idx) = idx.
@@ -28,3 +29,24 @@ Theorem C02_list_split : forall (F : Type) (K : Ops F) (n : nat) (blocks : list 
   hsplit K n (map fst blocks) 0 (hcat K n blocks) = map snd blocks.
 Proof. exact (@hsplit_hcat). Qed.
 Print Assumptions C02_list_split.
+
+(* the preprocessing chain (Scaler, DimensionRenamer, MultiIndexConverter, Stacker, MultiIndexConverter, Sanitizer,
+   Concatenator) applied forwards and undone backwards is the identity whenever every stage is undone on the domain
+   it receives; any number of stages *)
+Theorem C02_chain_roundtrip : forall (D : Type) (P : nat -> D -> Prop) (l : list (Pipe.stage D)) (o : nat),
+  (forall i s x, nth_error l i = Some s -> P (o + i) x -> P (o + S i) (Pipe.fwd D s x) /\ Pipe.bwd D s (Pipe.fwd D s x) = x) ->
+  forall x, P o x -> Pipe.run_bwd D true l (Pipe.run_fwd D l x) = x.
+Proof. exact Pipe_proofs.chain_roundtrip_on. Qed.
+Print Assumptions C02_chain_roundtrip.
+
+(* source tie (Gen/T7pipe.v): the stages are fitted in the declared order, transform walks them forwards, and every
+   inverse walks them backwards calling its own counterpart on each stage *)
+Theorem C02_chain_orders_in_source : T7pipe.fitted_order = T7pipe.declared_order /\ forallb Pipe_tie.loop_ok T7pipe.loops = true.
+Proof. exact (conj Pipe_tie.fitted_in_declared_order (proj1 Pipe_tie.loops_as_expected)). Qed.
+Print Assumptions C02_chain_orders_in_source.
+
+(* the renaming stage is undone exactly, whatever the dimension order of the item *)
+Theorem C02_rename_roundtrip : forall (start : nat) (sample xdims : list nat), incl sample xdims ->
+  let m := Pipe.dim_mapping T7pipe.renamer_rule start sample xdims in Pipe.unrename m (Pipe.rename m xdims) = xdims.
+Proof. exact (Pipe_proofs.rename_roundtrip T7pipe.renamer_rule). Qed.
+Print Assumptions C02_rename_roundtrip.
